@@ -83,6 +83,9 @@ class AvroWriter(AbstractWriter):
         self.writer.flush()
 
     def close(self) -> None:
+        if self.fp:
+            # Records are buffered by the block writer, make sure they end up in the file
+            self.flush()
         if self.fp and not is_stdout(self.fp):
             self.fp.close()
         self.fp = None
